@@ -12,7 +12,7 @@ var propC09 = &simProp{
 	Profile: sim.Profile{
 		Name: "C09", Voters: [2]int{1, 4}, NonVoters: [2]int{0, 1}, Phases: [2]int{2, 7},
 		Patterns: []string{"P10", "P10", "P10", "P10", "P24", "P24", "P28", "P28", "P21", "free", "free", "P1", "P2", "P3", "P4b", "P6", "P11", "P12", "P9", "stopstart"},
-		Writes:   true, Crashes: true, Stops: true, Membership: true, DiskCheck: true, EpilogueET: 10, Prologue: true, Snapshots: "both",
+		Writes:   true, Crashes: true, Stops: true, Membership: true, MemberRetry: true, DiskCheck: true, EpilogueET: 10, Prologue: true, Snapshots: "both",
 	},
 	Owns: []string{"C09", "C01", "C02", "C07"},
 	Rule: "generated cluster schedule starting from 1-4 voters with add-server (non-voter and voter), promote and remove-server (including the leader) requests submitted to any node, back-to-back, retried and around leader changes; new nodes started empty; partitions (hold/drop), crashes at arbitrary instants and storage boundaries, restarts; oracles: C01 apply table and committed-prefix agreement (configuration entries compared by content), C02 leader uniqueness, C07 leader completeness, plus: every leader was elected by a strict majority of the voters of a configuration it reported (non-voters never count), every first application / acknowledgement is on disk at a strict majority of the voters of a configuration in use, a successful membership future reports a committed configuration containing the change; " +
